@@ -17,9 +17,21 @@
    placement of any number of faults and every cancellation point.
    The protocol part of C02 (no deadlock, termination, syncutil.Go / LimitedRegion) is
    Properties/C02_protocol.v. *)
-From Oras Require Import Base.Prelude Model.CopySpec Model.CopyTop Model.CopyFault
-  Proofs.CopySpec Proofs.CopyFault.
+From Oras Require Import Base.Prelude Generated.GC02 Model.CopySpec Model.CopyTop Model.CopyFault
+  Proofs.CopySpec Proofs.CopyFault Proofs.CopyFnFacts.
 Local Open Scope nat_scope.
+
+(* The tie of the hand-modelled error handling to the source (layer T -> P): the syntactic facts
+   about copyGraph.fn (named result `err`; deferred `if err == nil { close(done) }`; the
+   `case <-ctx.Done(): return ctx.Err()` arm of the wait; the errors of Exists / FindSuccessors /
+   syncutil.Go / region.Start / copyNode returned; exactly two `return nil`), about syncutil.Go
+   (`return context.Cause(ctx)` after eg.Wait; a task's error cancels the group; skip when
+   cancelled), LimitedRegion.Start and ExtendedCopyGraph's outer closure, re-read from the Go
+   source on every run (Generated/GC02.v), all hold.  An edit of one of these places makes this
+   theorem fail to check. *)
+Theorem C02_source_facts : c02_source_facts = true.
+Proof. exact source_facts_hold. Qed.
+Print Assumptions C02_source_facts.
 
 (* A destination that started link-closed is link-closed after every accepted trace --
    successful, failed, cancelled, or still running. *)
@@ -41,7 +53,8 @@ Proof. exact fclosed_every_prefix. Qed.
 Print Assumptions C02_closed_every_prefix.
 
 (* No node's push completes (successfully, with ErrAlreadyExists, or with an error after
-   the content was stored) before all of that node's successors are in the destination. *)
+   the content was stored; likewise a Mount that mounted or uploaded the blob, or failed after
+   doing so -- [push_done]) before all of that node's successors are in the destination. *)
 Theorem C02_push_after_successors :
   forall (g : graph) (c : cfg) (ext : bool) (d0 : list node)
          (tr1 : list fevent) (fe : fevent) (tr2 : list fevent) (fs : fstate) (n : node),
@@ -89,6 +102,18 @@ Theorem C02_tainted_error_return_enabled :
     fstep g c ext fs (Ev (Ret false)) = Some (set_ret fs false).
 Proof. exact fret_err_enabled. Qed.
 Print Assumptions C02_tainted_error_return_enabled.
+
+(* The converse direction at the level of the spec model: a run without any fault event (and
+   without cancellation) is never tainted and never returns an error -- the only return such a
+   run can make is the successful one, whose guard is "every root done, nothing in flight".
+   (That a fault-free execution does reach its return, and returns nil, is a theorem of the
+   protocol part: C02_terminates + C02_nofault_returns_nil_protocol.) *)
+Theorem C02_nofault_no_error_return :
+  forall (g : graph) (c : cfg) (ext : bool) (d0 : list node) (tr : list fevent) (fs : fstate),
+    faccepts g c ext d0 tr = Some fs -> existsb is_fault tr = false ->
+    tainted g fs = false /\ returned (fb fs) <> Some false.
+Proof. exact fnofault_no_error. Qed.
+Print Assumptions C02_nofault_no_error_return.
 
 (* Success of the extended system (also ExtendedCopyGraph's fan-out over several roots):
    everything reachable from every root of the call is in the destination. *)
